@@ -18,6 +18,12 @@ def u32ToI32 (x : Nat) : Int := if x < 2147483648 then (x : Int) else (x : Int) 
 /-- `x as u32` for an `i32` value -/
 def i32ToU32 (x : Int) : Nat := (x % 4294967296).toNat
 
+/-- `Option<u32>` as a sort key: `None` first (Rust's derived `Ord`) -/
+def optNatLe : Option Nat → Option Nat → Bool
+  | none, _ => true
+  | some _, none => false
+  | some a, some b => a ≤ b
+
 /-- `message[i]`.  TRAP: index out of range (the model returns 0; see `Checked`). -/
 @[inline] def nib (m : Msg) (i : Nat) : Nat := m.getD i 0
 
